@@ -85,6 +85,10 @@ type Run struct {
 	inconclusive map[string]int64
 	exhaustive   *bool
 
+	// OnChildFailure, if set, is called by SpawnChildren with the crashed child's last Progress record and its
+	// output; it returns true when it turned the failure into a verdict (otherwise the failure is inconclusive).
+	OnChildFailure func(progress string, output string) bool
+
 	// child-process mode (see children.go)
 	childIdx, childN int
 	isChild          bool
